@@ -24,7 +24,7 @@ import (
 func TestVerifC18(t *testing.T) {
 	vfMain(t, vfCheck{
 		ID: "C18", Level: "exploration",
-		Rule:        "seeded determinate phased programs (phases of up to 64 pipelined READs of files with distinct contents, WRITEs to disjoint ranges, mixed path/handle commands; one program in four with WithMaxTxPacket/WithRSMaxTxPacket raised to 64 KiB..256 KiB and READs around that size) served twice by the same server kind on identical state, allocator off and on; delays at the send/worker hooks, bounded transport. A class is (server, phase shape, buffer mode); non-trivial when pages were reused (allocGet returned a previously released page).",
+		Rule:        "seeded determinate phased programs (phases of up to 64 pipelined READs of files with distinct contents, WRITEs to disjoint ranges, mixed path/handle commands; one program in four with WithMaxTxPacket/WithRSMaxTxPacket raised to 64 KiB..256 KiB and READs around that size) served twice by the same server kind on identical state, allocator off and on (every second program with a second session of another server instance reading beside it); delays at the send/worker hooks, bounded transport. A class is (server, phase shape, buffer mode); non-trivial when pages were reused (allocGet returned a previously released page).",
 		Assumptions: []string{"race detector on", "at quiescence the receive loop legitimately holds one page tagged with the next, not yet assigned order id"},
 		Units: func(tier vfTier, seed uint64) int {
 			if tier == vfThorough {
@@ -336,9 +336,31 @@ func c18Run(u *vfUnit) {
 		}
 		c18Fill(e, u)
 		shadow := &c18Shadow{owner: map[uintptr]uint32{}, byOID: map[uint32][]uintptr{}, sent: map[uint32]bool{}, released: map[uintptr]bool{}}
-		hooks := vfInstallHooks(vfHookCfg{Seed: r.Uint64(), MaxSleepUs: 150, NoLog: true, On: shadow.on,
-			DelayPct: map[int]int{vhPmSendBegin: 25, vhPmSendEnd: 25, vhSrvWorker: 30, vhRsWorker: 30, vhPmReady: 15}})
+		hc := vfHookCfg{Seed: r.Uint64(), MaxSleepUs: 150, NoLog: true, On: shadow.on,
+			DelayPct: map[int]int{vhPmSendBegin: 25, vhPmSendEnd: 25, vhSrvWorker: 30, vhRsWorker: 30, vhPmReady: 15}}
+		if pi%2 == 1 {
+			// hook events carry order ids, not the allocator they belong to: with a second session running the
+			// shadow table would mix two sessions up, so these programs rely on the byte comparison, the
+			// quiescence checks and the second session's own content check
+			hc.On = nil
+		}
+		hooks := vfInstallHooks(hc)
+		// in every second program a second session of another server instance of the same kind, allocator on
+		// as well, keeps reading in the background: allocators belong to one session, nothing may leak across
+		var stopBg chan struct{}
+		var bgDone chan string
+		if pi%2 == 1 {
+			stopBg = make(chan struct{})
+			bgDone = c18Background(u, kind, stopBg)
+			u.Count("programs_with_concurrent_session", 1)
+		}
 		got, ok := c18Serve(u, e, true, prog, buf, shadow, label+"/alloc=on")
+		if stopBg != nil {
+			close(stopBg)
+			if msg := <-bgDone; msg != "" {
+				u.Violation("concurrent-session:"+kind.String(), label+": the session running beside this one (own server instance, own allocator): "+msg, map[string]any{"config": label})
+			}
+		}
 		hooks.Uninstall()
 		if !ok {
 			continue
@@ -366,4 +388,81 @@ func c18Run(u *vfUnit) {
 			u.Sample(map[string]any{"config": label, "requests": total, "alloc_gets": shadow.gets, "page_reuses": shadow.reuses, "oracle": "byte-equal response streams alloc on/off + shadow ownership table"})
 		}
 	}
+}
+
+// c18Background serves files with known contents from a second server instance (allocator on) and keeps
+// sending bursts of pipelined READs until stop is closed; every DATA reply must be the file's bytes.
+func c18Background(u *vfUnit, kind vfKind, stop chan struct{}) chan string {
+	done := make(chan string, 1)
+	cfg := vfSrvCfg{Kind: kind, Alloc: true}
+	root := "/"
+	var dir string
+	sizes := []int{3000, 40000, 9000}
+	if kind == vfRS {
+		st := vfNewStore()
+		for i, sz := range sizes {
+			st.Put(fmt.Sprintf("/bg%d", i), vfPattern(uint64(70+i), 0, sz))
+		}
+		cfg.H = st.Handlers(vfHandlerOpt{OpenFile: true})
+	} else {
+		dir = filepath.Join(u.TempDir(), fmt.Sprintf("bg%d", u.Rng.Intn(1<<30)))
+		os.MkdirAll(dir, 0o755)
+		root = dir
+		for i, sz := range sizes {
+			os.WriteFile(filepath.Join(dir, fmt.Sprintf("bg%d", i)), vfPattern(uint64(70+i), 0, sz), 0o644)
+		}
+	}
+	rs, err := vfRawConnect(cfg, vfPipeOpts{}, true)
+	if err != nil {
+		done <- ""
+		return done
+	}
+	go func() {
+		msg := ""
+		defer func() {
+			rs.End(60 * time.Second)
+			if dir != "" {
+				os.RemoveAll(dir)
+			}
+			done <- msg
+		}()
+		var handles []string
+		for i := range sizes {
+			r, err := rs.R.Phase(60*time.Second, vfPkt{Type: rfOpen, ID: uint32(i + 1), Path: filepath.Join(root, fmt.Sprintf("bg%d", i)), Pflags: rfRead_})
+			if err != nil || len(r) != 1 || r[0].Type != rfHandle {
+				msg = fmt.Sprintf("OPEN answered %v %v", r, err)
+				return
+			}
+			handles = append(handles, r[0].Handle)
+		}
+		id := uint32(100)
+		rr := vfNewRand(uint64(len(handles)) + 99)
+		for round := 0; ; round++ {
+			select {
+			case <-stop:
+				return
+			default:
+			}
+			var burst []vfPkt
+			for k := 0; k < 8; k++ {
+				id++
+				f := rr.Intn(len(sizes))
+				burst = append(burst, vfPkt{Type: rfRead, ID: id, Handle: handles[f], Off: uint64(rr.Intn(sizes[f] - 2000)), Len: uint32(100 + rr.Intn(1900)), Pflags: uint32(f)})
+			}
+			resp, err := rs.R.Phase(120*time.Second, burst...)
+			if err != nil || len(resp) != len(burst) {
+				msg = fmt.Sprintf("burst %d: %d replies, err %v", round, len(resp), err)
+				return
+			}
+			for k, p := range resp {
+				q := burst[k]
+				want := vfPattern(uint64(70+q.Pflags), int64(q.Off), int(q.Len))
+				if p.Type != rfData || p.ID != q.ID || !bytes.Equal(p.Data, want) {
+					msg = fmt.Sprintf("READ id=%d off=%d len=%d of its own file answered %s (first difference at byte %d)", q.ID, q.Off, q.Len, p, vfFirstDiff(p.Data, want))
+					return
+				}
+			}
+		}
+	}()
+	return done
 }
